@@ -1251,3 +1251,101 @@ impl Monitor for C17 {
         )
     }
 }
+
+// ------------------------------------------------------------------------------------------
+/// C13 (transaction level): filestore requests run once, in order, only after a successful
+/// delivery, and the same responses reach both users and the Finished PDU.
+/// The scenario's request list is fixed (see props_e1::c13_scenarios):
+///   create new1; append log2 to log1 (non-idempotent); delete nope (fails); rename log2 -> log3
+#[derive(Default)]
+pub struct C13 {
+    r_success: bool,
+    r_resp: Option<Vec<String>>,
+    fin_delivered: Option<Vec<String>>,
+}
+fn side_files(root: &std::collections::BTreeMap<String, Option<Vec<u8>>>) -> Vec<(String, Option<String>)> {
+    root.iter().filter(|(k, _)| k.as_str() != DST_NAME).map(|(k, v)| (k.clone(), v.as_ref().map(|b| String::from_utf8_lossy(b).to_string()))).collect()
+}
+fn c13_initial() -> Vec<(String, Option<String>)> {
+    vec![("log1".into(), Some("A".into())), ("log2".into(), Some("B".into()))]
+}
+fn c13_final() -> Vec<(String, Option<String>)> {
+    vec![("log1".into(), Some("AB".into())), ("log2".into(), Some("B".into())), ("new1".into(), Some("".into()))]
+}
+fn c13_expected() -> Vec<String> {
+    vec!["CreateFile(Successful)".into(), "AppendFile(Successful)".into(), "DeleteFile(FileDoesNotExist)".into(), "RenameFile(NotPerformed)".into()]
+}
+fn statuses(r: &[cfdp_core::pdu::FileStoreResponse]) -> Vec<String> {
+    r.iter().map(|x| format!("{:?}", x.action_and_status)).collect()
+}
+impl Monitor for C13 {
+    fn step(&mut self, rec: &StepRec, ctx: &mut Ctx) {
+        let scn = ctx.scn;
+        for (side, i) in &rec.inds {
+            if let Indication::Finished(f) = i {
+                let st = statuses(&f.filestore_responses);
+                match side {
+                    Side::R => {
+                        ctx.arm("receiver-finished");
+                        let ok = is_success(scn, &(f.report.condition, f.delivery_code, f.file_status));
+                        if ok {
+                            if !self.r_success {
+                                self.r_success = true;
+                                if st != c13_expected() {
+                                    ctx.flag("responses-wrong", format!("{:?}", st), format!("the receiver reported the responses {:?}; the request list on this filestore gives {:?}", st, c13_expected()));
+                                }
+                            }
+                        } else if st.iter().any(|s| !s.contains("NotPerformed")) {
+                            ctx.flag("requests-run-without-success", format!("{:?}", f.report.condition), format!("the delivery was not successful ({:?}/{:?}) but the receiver reports executed requests {:?}", f.report.condition, f.delivery_code, st));
+                        }
+                        if self.r_resp.is_none() || ok {
+                            self.r_resp = Some(st);
+                        }
+                    }
+                    Side::S => {
+                        ctx.arm("sender-finished");
+                        if let Some(fd) = &self.fin_delivered {
+                            if &st != fd {
+                                ctx.flag("sender-responses-differ", "", format!("the sender reports the responses {:?} but the Finished PDU it received carried {:?}", st, fd));
+                            }
+                        }
+                    }
+                }
+            }
+        }
+        for (side, p) in &rec.out {
+            if let (Side::R, Some(Operations::Finished(f))) = (side, op_of(p)) {
+                ctx.arm("finished-pdu");
+                let st = statuses(&f.filestore_response);
+                if f.condition == Condition::NoError {
+                    if let Some(r) = &self.r_resp {
+                        if &st != r {
+                            ctx.flag("pdu-responses-differ", "", format!("the Finished PDU carries the responses {:?} but the receiver told its user {:?}", st, r));
+                        }
+                    }
+                }
+            }
+        }
+        if let Some((Side::S, p)) = &rec.delivered {
+            if let Some(Operations::Finished(f)) = op_of(p) {
+                self.fin_delivered = Some(statuses(&f.filestore_response));
+            }
+        }
+        // effects: nothing before (or without) a successful delivery, everything exactly once after
+        let files = side_files(&rec.obs.r_root);
+        let want = if self.r_success { c13_final() } else { c13_initial() };
+        if files != want {
+            ctx.flag(
+                if self.r_success { "effects-not-exactly-once" } else { "effects-before-success" },
+                format!("{:?}", files),
+                format!("filestore (besides the destination) is {:?}, expected {:?} (receiver success reported: {})", files, want, self.r_success),
+            );
+        }
+    }
+    fn key(&self) -> String {
+        format!("{} {:?} {:?}", self.r_success, self.r_resp, self.fin_delivered)
+    }
+    fn outcome(&self) -> String {
+        format!("r_ok={}", self.r_success)
+    }
+}
